@@ -965,7 +965,12 @@ class SigningKey(object):
         :rtype: SigningKey
         """
         if not PY2 and isinstance(string, str):  # pragma: no branch
-            string = string.encode()
+            try:
+                string = string.encode()
+            except UnicodeError as e:
+                raise der.UnexpectedDER(
+                    "PEM text can not be encoded: %s" % e
+                )
 
         # The privkey pem may have multiple sections, commonly it also has
         # "EC PARAMETERS", we need just "EC PRIVATE KEY". PKCS#8 should not
